@@ -70,8 +70,8 @@ type Config struct {
 	EnvFilter func(depth int, env int) bool
 	// MenuFilter restricts menu items (nil = all).
 	MenuFilter func(depth int, prefix []int, item int) bool
-	// OnTransition is called for every executed transition (after monitors).
-	OnTransition func(t *Transition)
+	// OnTransition is called for every executed transition (after monitors, outside locks, concurrently).
+	OnTransition func(t *Transition, newState bool) []Violation
 }
 
 // Stats of a search.
@@ -271,6 +271,27 @@ func runOneP(c *Config, res *result, h History, b Block, pre *State) *Trace {
 
 // evaluate runs the monitors on a transition and returns the history if it leads to a new state.
 func evaluate(c *Config, res *result, t *Transition) History {
+	h, isNew := evaluate1(c, res, t)
+	if c.OnTransition != nil {
+		vs := c.OnTransition(t, isNew)
+		if len(vs) > 0 {
+			res.mu.Lock()
+			for i := range vs {
+				if vs[i].World == "" {
+					vs[i].World = c.World.Name
+				}
+				if vs[i].Hist == nil {
+					vs[i].Hist = t.Cur.Hist
+				}
+			}
+			res.violations = append(res.violations, vs...)
+			res.mu.Unlock()
+		}
+	}
+	return h
+}
+
+func evaluate1(c *Config, res *result, t *Transition) (History, bool) {
 	atomic.AddInt64(&res.stats.Transitions, 1)
 	var vs []Violation
 	nt := map[string]bool{}
@@ -309,23 +330,19 @@ func evaluate(c *Config, res *result, t *Transition) History {
 	if len(res.stats.Samples) < 3 && len(t.Cur.Hist) > 0 && len(t.Cur.Last().Txs) > 0 {
 		res.stats.Samples = append(res.stats.Samples, Describe(t.Cur))
 	}
-	if c.OnTransition != nil {
-		c.OnTransition(t)
-	}
 	if t.Cur.Fault != nil || t.Cur.Final() == nil {
-		return nil
+		return nil, false
 	}
 	k := t.Cur.Key()
-	if c.Dedupe {
-		if _, ok := res.seen[k]; ok {
-			return nil
-		}
-	}
-	if _, ok := res.seen[k]; !ok {
+	_, seen := res.seen[k]
+	if !seen {
 		res.seen[k] = struct{}{}
 		res.stats.States++
 	}
-	return t.Cur.Hist
+	if c.Dedupe && seen {
+		return nil, false
+	}
+	return t.Cur.Hist, !seen
 }
 
 // Describe renders a trace briefly (for samples and reports).
